@@ -4,7 +4,7 @@
 # On success copies it to /verif/seeded/<prop>-<letter>/ .
 set -u
 prop="$1"; letter="$2"
-case "$letter" in A|B) src="/tmp/wt/$prop-out/$letter";; C|D|E) src="/tmp/wt2/$prop-out/$letter";; F|G|H) src="/tmp/wt3/$prop-out/$letter";; J|K|L) src="/tmp/wt4/$prop-out/$letter";; M|N) src="/tmp/wt5/$prop-out/$letter";; P|Q) src="/tmp/wt6/$prop-out/$letter";; R|S) src="/tmp/wt7/$prop-out/$letter";; *) src="/tmp/wt8/$prop-out/$letter";; esac
+case "$letter" in A|B) src="/tmp/wt/$prop-out/$letter";; C|D|E) src="/tmp/wt2/$prop-out/$letter";; F|G|H) src="/tmp/wt3/$prop-out/$letter";; J|K|L) src="/tmp/wt4/$prop-out/$letter";; M|N) src="/tmp/wt5/$prop-out/$letter";; P|Q) src="/tmp/wt6/$prop-out/$letter";; R|S) src="/tmp/wt7/$prop-out/$letter";; T|U) src="/tmp/wt8/$prop-out/$letter";; *) src="/tmp/wt9/$prop-out/$letter";; esac
 [ -n "${SRC:-}" ] && src="$SRC"
 export GOFLAGS=-mod=mod GOPROXY=off GOSUMDB=off GOTOOLCHAIN=local PATH=/opt/veriftools/go1.26.8/bin:$PATH
 wt="/tmp/sv-$prop-$letter"
